@@ -202,3 +202,102 @@ Definition ttns_validb (st : stree Z) (g : qtree Z) (pt : ptree) (qtot : Z) : bo
 (* vector labels: every component *)
 Definition ttns_validbV (ncomp : nat) (st : stree (list Z)) (g : qtree (list Z)) (pt : ptree) (qtot : list Z) : bool :=
   forallb (fun k => ttns_validb (smap (comp k) st) (qmap (comp k) g) pt (comp k qtot)) (seq 0 ncomp).
+
+(* ================================================================== third wave: gauge moves, 2-site update, masks *)
+(* the label tree after a move that re-labels the bond between a node and its child i:
+   decompose_to_parent: node.qn = qnlnew;  decompose_to_child / compress_node: child.qn = qnr;
+   update_2site: node.qn = msqn (cano_parent) or qntot - msqn *)
+Definition qset_child {A} (i : nat) (qnew : list A) (g : qtree A) : qtree A :=
+  match g with
+  | QNode q gs =>
+    match nth_error gs i with
+    | Some (QNode _ gcs) => QNode q (replace_nth i (QNode qnew gcs) gs)
+    | None => g
+    end
+  end.
+Fixpoint qat_path {A} (path : list nat) (f : qtree A -> qtree A) (g : qtree A) : qtree A :=
+  match path with
+  | [] => f g
+  | i :: path' => match g with QNode q gs => QNode q (map_nth i (qat_path path' f) gs) end
+  end.
+Fixpoint qsubtree {A} (path : list nat) (g : qtree A) : option (qtree A) :=
+  match path with
+  | [] => Some g
+  | i :: path' => match nth_error (qch g) i with Some c => qsubtree path' c | None => None end
+  end.
+Definition sch {A} (s : stree A) : list (stree A) := match s with SNode _ cs => cs end.
+Fixpoint ssubtree {A} (path : list nat) (s : stree A) : option (stree A) :=
+  match path with
+  | [] => Some s
+  | i :: path' => match nth_error (sch s) i with Some c => ssubtree path' c | None => None end
+  end.
+
+(* update_2site (fixed version a4feae3: row dimension = prod(qnbigl.shape[:-1])):
+     node.tensor   <- m_node   (children of node, physical of node, new bond)
+     parent.tensor <- moveaxis(m_parent.reshape([-1] + parent shape without the child axis), 0, ichild)
+   i.e. BOTH tensors are replaced and the bond between them is re-labelled. *)
+Definition update_2site {R : CRing} (i m : nat) (Nn Pn : tens R) (t : ttree R) : ttree R :=
+  match t with
+  | TNode l pd d _ cs =>
+    match nth_error cs i with
+    | Some (TNode lc pdc _ _ ccs) => TNode l pd d Pn (replace_nth i (TNode lc pdc m Nn ccs) cs)
+    | None => t
+    end
+  end.
+(* replacing the tensor of the root node of a sub-tree (1-site update) *)
+Definition set_tensor {R : CRing} (T' : tens R) (t : ttree R) : ttree R :=
+  match t with TNode l pd d _ cs => TNode l pd d T' cs end.
+
+Section TreeMask.
+Variable L : LabOps.
+Fixpoint sigsumL (z : lab L) (sg : list (list (lab L))) (ph : list nat) : lab L :=
+  match sg, ph with
+  | s :: sg', p :: ph' => ladd L (nth p s z) (sigsumL z sg' ph')
+  | _, _ => z
+  end.
+Fixpoint sumlabL (z : lab L) (gs : list (qtree (lab L))) (ks : list nat) : lab L :=
+  match gs, ks with
+  | g :: gs', k :: ks' => ladd L (nth k (qlab g) z) (sumlabL z gs' ks')
+  | _, _ => z
+  end.
+(* get_qnmat(node, include_parent=False): qnbigl = children + physical, qnbigr = qntot - node.qn;
+   get_qnmask = all(qnbigl + qnbigr == qntot) *)
+Definition tmask1 (qtot : lab L) (sg : list (list (lab L))) (q : list (lab L)) (gs : list (qtree (lab L)))
+    (ks ph : list nat) (p : nat) : bool :=
+  let z := lzero_like L qtot in
+  leqb L (ladd L (ladd L (sumlabL z gs ks) (sigsumL z sg ph)) (lsub L qtot (nth p q z))) qtot.
+(* get_qnmat(node, include_parent=True): qnbigl = node's children + physical;
+   qnbigr = parent's other children + parent's physical + (qntot - parent.qn) *)
+Definition tmask2 (qtot : lab L) (sgn : list (list (lab L))) (gsn : list (qtree (lab L)))
+    (sgp : list (list (lab L))) (qp : list (lab L)) (gso : list (qtree (lab L)))
+    (ksn phn kso php : list nat) (pp : nat) : bool :=
+  let z := lzero_like L qtot in
+  leqb L (ladd L (ladd L (sumlabL z gsn ksn) (sigsumL z sgn phn))
+                 (ladd L (ladd L (sumlabL z gso kso) (sigsumL z sgp php)) (lsub L qtot (nth pp qp z)))) qtot.
+End TreeMask.
+Arguments tmask1 {L} qtot sg q gs ks ph p.
+Arguments tmask2 {L} qtot sgn gsn sgp qp gso ksn phn kso php pp.
+
+(* all index tuples of an array with the given dimensions, row-major (ndarray.ravel() order) *)
+Fixpoint all_tuples (dims : list nat) : list (list nat) :=
+  match dims with
+  | [] => [[]]
+  | d :: ds => flat_map (fun i => map (fun t => i :: t) (all_tuples ds)) (seq 0 d)
+  end.
+Definition tmask1_flat {L} (qtot : lab L) (sg : list (list (lab L))) (q : list (lab L)) (gs : list (qtree (lab L))) : list bool :=
+  let nc := length gs in let np := length sg in
+  map (fun idx => tmask1 qtot sg q gs (firstn nc idx) (firstn np (skipn nc idx)) (nth (nc + np) idx O))
+      (all_tuples (map (fun g => length (qlab g)) gs ++ map (@length _) sg ++ [length q])).
+Definition tmask2_flat {L} (qtot : lab L) (sgn : list (list (lab L))) (gsn : list (qtree (lab L)))
+    (sgp : list (list (lab L))) (qp : list (lab L)) (gso : list (qtree (lab L))) : list bool :=
+  let a := length gsn in let b := length sgn in let c := length gso in let d := length sgp in
+  map (fun idx => tmask2 qtot sgn gsn sgp qp gso (firstn a idx) (firstn b (skipn a idx)) (firstn c (skipn (a + b) idx))
+                         (firstn d (skipn (a + b + c) idx)) (nth (a + b + c + d) idx O))
+      (all_tuples (map (fun g => length (qlab g)) gsn ++ map (@length _) sgn ++ map (fun g => length (qlab g)) gso
+                   ++ map (@length _) sgp ++ [length qp])).
+
+(* vector labels on trees: every component *)
+Definition ttns_qn_validV {R : CRing} (nc : nat) (st : stree (list Z)) (t : ttree R) (g : qtree (list Z)) (qtot : list Z) : Prop :=
+  forall k, (k < nc)%nat -> ttns_qn_valid (smap (comp k) st) t (qmap (comp k) g) (comp k qtot).
+Definition ovalidV {R : CRing} (nc : nat) (st : stree (list Z)) (o : otree R) (g : qtree (list Z)) : Prop :=
+  forall k, (k < nc)%nat -> ovalid (smap (comp k) st) o (qmap (comp k) g).
